@@ -233,9 +233,6 @@ func c28DiffKey(want, got []kmsg.MetadataResponseTopic, v int16) (string, string
 		}
 		return k
 	}
-	if len(got) < len(want) {
-		// fallthrough to detailed search, but remember
-	}
 	wantBy := map[tk][]kmsg.MetadataResponseTopic{}
 	for _, t := range want {
 		wantBy[key(t)] = append(wantBy[key(t)], t)
@@ -418,41 +415,113 @@ func c28Expected(c c28Case, ids [][16]byte, storeRet *metadata.ClusterMetadata) 
 
 type c28Result struct {
 	viol   *c28Viol
-	sig    string
+	sig    uint64
 	nontr  bool
 	detail map[string]any
 }
 
-// c28RunMetadata executes one metadata case on the real proxy code.
-func c28RunMetadata(c c28Case, wantSample bool) (res c28Result) {
+// c28Env is one cluster snapshot served by the real InMemoryStore to a real proxy struct.
+type c28Env struct {
+	nb     int
+	topics []c28Topic
+	st     *c28Store
+	p      *proxy
+	ids    [][16]byte // topic ids as the store reports them (derived from the name when not explicit)
+	ctx    context.Context
+}
+
+func c28NewEnv(nb int, topics []c28Topic) *c28Env {
+	e := &c28Env{nb: nb, topics: topics, ctx: context.Background()}
+	e.st = &c28Store{InMemoryStore: metadata.NewInMemoryStore(c28BuildState(nb, topics))}
+	e.p = c28NewProxy(e.st)
+	full, _ := e.st.InMemoryStore.Metadata(e.ctx, nil)
+	e.ids = make([][16]byte, len(topics))
+	for i := range topics {
+		for _, t := range full.Topics {
+			if c28Name(t.Topic) == c28TopicName(i) {
+				e.ids[i] = t.TopicID
+			}
+		}
+	}
+	return e
+}
+
+func c28Mix(h uint64, v uint64) uint64 {
+	for i := 0; i < 8; i++ {
+		h ^= v & 0xff
+		h *= 1099511628211
+		v >>= 8
+	}
+	return h
+}
+
+// c28SameOrdered: fast path, true when got carries want's tuples in the same order.
+func c28SameOrdered(want, got []kmsg.MetadataResponseTopic, v int16) bool {
+	if len(want) != len(got) {
+		return false
+	}
+	for i := range want {
+		w, g := &want[i], &got[i]
+		if c28Name(w.Topic) != c28Name(g.Topic) || w.ErrorCode != g.ErrorCode || len(w.Partitions) != len(g.Partitions) {
+			return false
+		}
+		if v >= 10 && w.TopicID != g.TopicID {
+			return false
+		}
+		for j := range w.Partitions {
+			wp, gp := &w.Partitions[j], &g.Partitions[j]
+			if wp.Partition != gp.Partition || wp.ErrorCode != gp.ErrorCode {
+				return false
+			}
+			if v >= 7 && wp.LeaderEpoch != gp.LeaderEpoch {
+				return false
+			}
+		}
+	}
+	return true
+}
+
+func c28HashReply(resp *kmsg.MetadataResponse, v int16) uint64 {
+	h := c28Mix(14695981039346656037, uint64(v))
+	for i := range resp.Topics {
+		t := &resp.Topics[i]
+		for _, b := range []byte(c28Name(t.Topic)) {
+			h = c28Mix(h, uint64(b))
+		}
+		if v >= 10 {
+			h = c28Mix(h, binary.BigEndian.Uint64(t.TopicID[:8]))
+			h = c28Mix(h, binary.BigEndian.Uint64(t.TopicID[8:]))
+		}
+		h = c28Mix(h, uint64(uint16(t.ErrorCode))<<32|uint64(len(t.Partitions)))
+		for j := range t.Partitions {
+			p := &t.Partitions[j]
+			ep := int32(0)
+			if v >= 7 {
+				ep = p.LeaderEpoch
+			}
+			h = c28Mix(h, uint64(uint32(p.Partition))<<32|uint64(uint16(p.ErrorCode))<<16^uint64(uint32(ep))<<1)
+		}
+	}
+	return h
+}
+
+// run executes one metadata case on the real proxy code. slow=true also renders the details.
+func (e *c28Env) run(rq c28Req, version int16, slow bool) (res c28Result) {
+	c := c28Case{Brokers: e.nb, Topics: e.topics, Req: rq, Version: version}
 	defer func() {
 		if r := recover(); r != nil {
 			res.viol = &c28Viol{"panic-in-metadata-path", fmt.Sprint(r)}
 		}
 	}()
-	state := c28BuildState(c.Brokers, c.Topics)
-	st := &c28Store{InMemoryStore: metadata.NewInMemoryStore(state)}
-	p := c28NewProxy(st)
-	ctx := context.Background()
-	// topic ids as the store reports them (derived from the name when not explicit)
-	full, _ := st.InMemoryStore.Metadata(ctx, nil)
-	ids := make([][16]byte, len(c.Topics))
-	for i := range c.Topics {
-		for _, t := range full.Topics {
-			if c28Name(t.Topic) == c28TopicName(i) {
-				ids[i] = t.TopicID
-			}
-		}
-	}
-	req := c28BuildRequest(c, ids)
+	req := c28BuildRequest(c, e.ids)
 	payload := c28EncodeReq(req, 4242)
 	header, _, err := protocol.ParseRequestHeader(payload)
 	if err != nil {
 		res.viol = &c28Viol{"harness-request-unparseable", err.Error()}
 		return
 	}
-	st.last = nil
-	out, err := p.handleMetadata(ctx, header, payload)
+	e.st.last = nil
+	out, err := e.p.handleMetadata(e.ctx, header, payload)
 	if err != nil {
 		res.viol = &c28Viol{"metadata-request-rejected", fmt.Sprintf("handleMetadata error: %v", err)}
 		return
@@ -468,28 +537,36 @@ func c28RunMetadata(c c28Case, wantSample bool) (res c28Result) {
 		res.viol = &c28Viol{"reply-undecodable", err.Error()}
 		return
 	}
-	if st.last == nil {
+	if e.st.last == nil {
 		res.viol = &c28Viol{"store-not-consulted", "handleMetadata answered without reading the store"}
 		return
 	}
-	want := c28Expected(c, ids, st.last)
-	wt, gt := c28Tuples(want, c.Version), c28Tuples(resp.Topics, c.Version)
-	res.sig = fmt.Sprintf("v%d|%s", c.Version, strings.Join(gt, ";"))
-	for _, t := range want {
-		if len(t.Partitions) > 0 || t.ErrorCode != 0 {
+	want := c28Expected(c, e.ids, e.st.last)
+	res.sig = c28HashReply(resp, c.Version)
+	for i := range want {
+		if len(want[i].Partitions) > 0 || want[i].ErrorCode != 0 {
 			res.nontr = true
+			break
 		}
 	}
 	if v := c28CheckOnlyProxy(resp, c.Version, false); v != nil {
 		res.viol = v
-	} else if strings.Join(wt, ";") != strings.Join(gt, ";") {
-		k, d := c28DiffKey(want, resp.Topics, c.Version)
-		res.viol = &c28Viol{k, d + fmt.Sprintf(" | store: %v | reply: %v", wt, gt)}
+	} else if !c28SameOrdered(want, resp.Topics, c.Version) {
+		// order is not part of the property: compare as multisets
+		wt, gt := c28Tuples(want, c.Version), c28Tuples(resp.Topics, c.Version)
+		if strings.Join(wt, ";") != strings.Join(gt, ";") {
+			k, d := c28DiffKey(want, resp.Topics, c.Version)
+			res.viol = &c28Viol{k, d + fmt.Sprintf(" | store: %v | reply: %v", wt, gt)}
+		}
 	}
-	if wantSample || res.viol != nil {
-		res.detail = map[string]any{"case": c, "store_returned": wt, "reply": gt, "reply_brokers": c28BrokerList(resp.Brokers), "controller": resp.ControllerID}
+	if slow || res.viol != nil {
+		res.detail = map[string]any{"case": c, "store_returned": c28Tuples(want, c.Version), "reply": c28Tuples(resp.Topics, c.Version), "reply_brokers": c28BrokerList(resp.Brokers), "controller": resp.ControllerID}
 	}
 	return
+}
+
+func c28RunMetadata(c c28Case, slow bool) c28Result {
+	return c28NewEnv(c.Brokers, c.Topics).run(c.Req, c.Version, slow)
 }
 
 func c28Subsets(univ []int) [][]int {
@@ -605,7 +682,7 @@ func TestVerifC28(t *testing.T) {
 		}
 		r := c28RunMetadata(replay, true)
 		rep.Eval(1)
-		rep.Outcome(r.sig, r.nontr)
+		rep.Outcome(fmt.Sprintf("%016x", r.sig), r.nontr)
 		rep.Sample(r.detail)
 		if r.viol != nil {
 			rep.Violation(r.viol.key, r.viol.detail, replay)
@@ -658,22 +735,23 @@ func TestVerifC28(t *testing.T) {
 		wg.Add(1)
 		go func() {
 			defer wg.Done()
-			sigs := map[string]bool{}
+			sigs := map[uint64]bool{}
 			var evals int64
 			flush := func() {
 				for s, nt := range sigs {
-					rep.Outcome(s, nt)
+					rep.Outcome(fmt.Sprintf("%016x", s), nt)
 				}
-				sigs = map[string]bool{}
+				sigs = map[uint64]bool{}
 				rep.Eval(evals)
 				evals = 0
 			}
 			defer flush()
+			nsnap := 0
 			runSnap := func(nb int, topics []c28Topic) bool {
+				env := c28NewEnv(nb, topics)
 				for _, v := range versions {
 					for _, rq := range reqCache[[2]int{len(topics), int(v)}] {
-						c := c28Case{Brokers: nb, Topics: topics, Req: rq, Version: v}
-						r := c28RunMetadata(c, false)
+						r := env.run(rq, v, false)
 						evals++
 						if r.nontr {
 							sigs[r.sig] = true
@@ -681,18 +759,18 @@ func TestVerifC28(t *testing.T) {
 							sigs[r.sig] = false
 						}
 						if r.viol != nil {
-							rep.Violation(r.viol.key, r.viol.detail, c)
+							rep.Violation(r.viol.key, r.viol.detail, c28Case{Brokers: nb, Topics: topics, Req: rq, Version: v})
 						}
-						if r.nontr && len(rq.Sel) >= 2 && nb >= 2 && rep.WantSample() {
-							rs := c28RunMetadata(c, true)
-							rep.Sample(rs.detail)
+						if r.nontr && len(rq.Sel) >= 2 && nb >= 2 && v >= 10 && evals%64 == 1 && rep.WantSample() {
+							rep.Sample(env.run(rq, v, true).detail)
 						}
 					}
 				}
 				if len(sigs) > 50000 {
 					flush()
 				}
-				return time.Now().Before(deadline)
+				nsnap++
+				return nsnap%64 != 0 || time.Now().Before(deadline)
 			}
 			for j := range jobs {
 				tl := full
